@@ -22,7 +22,8 @@ Record frame := mkFrame {
   fr_base : N;                          (* CallFrame::base *)
   fr_nregs : N;                         (* CallFrame::num_registers *)
   fr_function : N;                      (* CallFrame::function *)
-  fr_closure : option N                 (* the closure object whose upvalue vector upvalues_ptr points into *)
+  fr_closure : option N;                (* the closure object whose upvalue vector upvalues_ptr points into *)
+  fr_fn_nregs : N                       (* Function::num_registers of the function the frame runs (heap object) *)
 }.
 
 Record vm := mkVm {
@@ -73,7 +74,7 @@ Definition collect_roots_old (s : vm) : list N :=
 (* ---- specification: the places the program can still reach an object through ------------ *)
 Inductive holds_ref (s : vm) : N -> Prop :=
 | hr_live_variable : forall f k p,       (* a register inside the window of an active frame *)
-    In f (v_frames s) -> fr_base f <= k -> k < fr_base f + fr_nregs f ->
+    In f (v_frames s) -> fr_base f <= k -> k < fr_base f + fr_fn_nregs f ->
     nth_error (v_registers s) (N.to_nat k) = Some (Some p) -> holds_ref s p
 | hr_running_function : forall f, In f (v_frames s) -> holds_ref s (fr_function f)
 | hr_running_closure : forall f c, In f (v_frames s) -> fr_closure f = Some c -> holds_ref s c
@@ -81,6 +82,15 @@ Inductive holds_ref (s : vm) : N -> Prop :=
 | hr_global_by_index : forall p, In (Some p) (v_globals_by_index s) -> holds_ref s p
 | hr_open_upvalue : forall p, In p (v_open_upvalues s) -> holds_ref s p
 | hr_current_upvalue : forall p, In p (v_current_upvalues s) -> holds_ref s p.
+
+(* frame-record consistency: every frame records the register count of the function it runs.
+   `collect` scans fr_nregs registers, the function uses fr_fn_nregs of them (the specification's
+   window); the call paths copy the count from the function, a closure or a call-site cache entry.
+   The tie checks this on every dumped state and the audit at every collection. *)
+Definition frames_consistent (s : vm) : Prop :=
+  forall f, In f (v_frames s) -> fr_nregs f = fr_fn_nregs f.
+Definition frames_consistent_b (s : vm) : bool :=
+  forallb (fun f => fr_nregs f =? fr_fn_nregs f) (v_frames s).
 
 (* everything the program can reach: through one of those places, then along any stored reference *)
 Definition program_reachable (s : vm) (h : heap) (i : N) : Prop :=
@@ -169,13 +179,15 @@ Fixpoint dedup_sorted (l : list N) : list N :=
   end.
 
 (* [survivors; free list after AS A SET (sorted: the order of reuse is an internal matter); objects reachable per edges_spec from the model's roots; the
-   model's roots (sorted, deduplicated); pointer values left in the snapshots after collect] *)
+   model's roots (sorted, deduplicated); pointer values left in the snapshots after collect; [1] iff every frame records its function's
+   register count] *)
 Definition vm_obs (q : vmq) : list (list N) :=
   match q with
   | QVmCollect s h =>
       let roots := collect_roots s in
       match vm_collect s h, mark_roots edges_spec (fuel_bound edges_spec h) h [] roots with
-      | Some (s', h'), Some ms => [live h'; sort (free h'); sort ms; dedup_sorted (sort roots); v_globals_cache s']
+      | Some (s', h'), Some ms => [live h'; sort (free h'); sort ms; dedup_sorted (sort roots); v_globals_cache s';
+                                    [if frames_consistent_b s then 1 else 0]]
       | _, _ => []
       end
   end.
